@@ -295,6 +295,11 @@ func (x *explorer) simplify(t *Term, st map[int]Val, depth int) *Term {
 			return v
 		}
 	case "call":
+		if t.Name == "dyn" && len(t.Args) >= 1 && t.Args[0].Op == "mval" && len(t.Args[0].Args) == 1 {
+			// a call through a method value (slices.ContainsFunc(xs, id.Equal)) is the method call
+			mv := t.Args[0]
+			return &Term{Op: "call", Name: mv.Name, Args: append([]*Term{mv.Args[0]}, t.Args[1:]...), Pos: t.Pos}
+		}
 		if t.Name == "len" && len(t.Args) == 1 {
 			if t.Args[0].Op == "list" {
 				return konst(strconv.Itoa(len(t.Args[0].Args)))
